@@ -172,10 +172,17 @@ func (r *RNG) mutateBytes(src string) string {
 	return string(b)
 }
 
-// bigInput returns one of the size-stress documents (bounded: <= ~1 MB, <= 2000 levels).
+// bigInput returns one of the size-stress documents (bounded: <= ~1 MB and <= 2000 levels, except the flat run of <= 1.4 million siblings = 5.6 MB).
 func bigInput(kind int, r *RNG) (string, string) {
 	var sb strings.Builder
-	switch kind % 12 {
+	switch kind % 13 {
+	case 12:
+		// a long flat run of wordless siblings after a page-number link (no nesting at all)
+		n := 1200000 + r.Intn(200000)
+		if r.Chance(2, 3) {
+			n = 20000 + r.Intn(200000) // the long run costs ~1 GB of memory; not every time
+		}
+		return `<html><body><p>w1q w2q w3q.</p><a href="/a/2">2</a>` + strings.Repeat("<br>", n) + `</body></html>`, fmt.Sprintf("numeric link followed by %d wordless siblings", n)
 	case 0:
 		d := 500 + r.Intn(1500)
 		sb.WriteString(strings.Repeat("<ul><li>x ", d))
